@@ -180,9 +180,16 @@ class Normalizer:
         self.inlined = {}           # callee qualname -> set of original call-node ids
         self.log = {}               # outer function qualname -> sorted list of callee names
         self._overrides = {}
+        self._elig = {}
 
     # ------------------------------------------------------------------ resolution
     def _eligible(self, f):
+        k = id(f)
+        if k not in self._elig:
+            self._elig[k] = self._eligible0(f)
+        return self._elig[k]
+
+    def _eligible0(self, f):
         node = f.node if not hasattr(f, '_node') else f._node
         if f.name in self.protect or (f.name.startswith('__') and f.name.endswith('__')):
             return None
@@ -364,10 +371,22 @@ class Normalizer:
         self.inlined.setdefault(q, set()).add(getattr(call, '_orig', id(call)))
         ctx['used'].add(q)
 
-    def inline_call(self, call, resolved, ctx, mode, mk=None):
+    def inline_call(self, call, resolved, ctx, mode, mk=None, target_name=None):
         """mode 'return': splice the body, returns stay; otherwise returns are rewritten with mk"""
         callee, node, receiver = resolved
         prelude, body = self._body_of(callee, node, call, receiver)
+        if target_name is not None:
+            # x = helper(...) where the helper builds and returns one local r: let r be x itself (no `x = r` alias left behind)
+            rets = [n for st in body for n in ([st] if isinstance(st, ast.Return) else list(walk_no_nested(st))) if isinstance(n, ast.Return)]
+            rn = {n.value.id for n in rets if isinstance(n.value, ast.Name)}
+            used = {n.id for st in prelude + body for n in ast.walk(st) if isinstance(n, ast.Name)}
+            if rets and len(rn) == 1 and all(isinstance(n.value, ast.Name) for n in rets) and target_name not in used:
+                r = rn.pop()
+                if '__i' in r:
+                    for st in body:
+                        for n in ast.walk(st):
+                            if isinstance(n, ast.Name) and n.id == r:
+                                n.id = target_name
         if falls_through(body):
             body = body + [ast.Return(value=ast.Constant(value=None))]
         if mode != 'return':
@@ -415,8 +434,10 @@ class Normalizer:
                                 [] if e is None or is_stable(e) else [ast.Expr(value=e)]))
                         elif isinstance(st, ast.Assign):
                             tg = st.targets
-                            new = self.inline_call(v, r, ctx, 'value', lambda e: [ast.Assign(
-                                targets=clone(tg), value=e if e is not None else ast.Constant(value=None))])
+                            tname = tg[0].id if len(tg) == 1 and isinstance(tg[0], ast.Name) else None
+                            new = self.inline_call(v, r, ctx, 'value', lambda e: [] if (
+                                tname is not None and isinstance(e, ast.Name) and e.id == tname) else [ast.Assign(
+                                    targets=clone(tg), value=e if e is not None else ast.Constant(value=None))], target_name=tname)
                         elif isinstance(st, ast.AugAssign):
                             tg, op = st.target, st.op
                             new = self.inline_call(v, r, ctx, 'value', lambda e: [ast.AugAssign(
@@ -847,6 +868,33 @@ class Normalizer:
     # ------------------------------------------------------------------ entry
     def normalize(self, f):
         node = f._node if hasattr(f, '_node') else f.node
+        # pre-scan: which transformations can apply at all
+        kinds = set()
+        names = set()
+        maybe_call = False
+        fnames = f.module.functions
+        for n in ast.walk(node):
+            kinds.add(type(n))
+            if isinstance(n, ast.Name):
+                names.add(n.id)
+            elif isinstance(n, ast.Call):
+                fu = n.func
+                if isinstance(fu, ast.Name):
+                    if fu.id in fnames and fu.id not in self.protect:
+                        maybe_call = True
+                elif isinstance(fu, ast.Attribute) and isinstance(fu.value, ast.Name) and f.cls is not None and fu.attr.startswith('_') \
+                        and fu.attr not in self.protect:
+                    maybe_call = True
+        want = {
+            'zip': 'zip' in names and ast.For in kinds or 'zip' in names,
+            'dictcomp': ast.DictComp in kinds,
+            'unroll': ast.For in kinds,
+            'attr': 'setattr' in names or 'getattr' in names,
+            'append': ast.For in kinds and ast.List in kinds,
+            'ifexp': ast.IfExp in kinds,
+        }
+        if not maybe_call and not any(want.values()):
+            return node
         fn = clone(node)
         params = [x.arg for x in fn.args.posonlyargs + fn.args.args]
         local = set(params) | {x.arg for x in fn.args.kwonlyargs}
@@ -860,14 +908,23 @@ class Normalizer:
         if ctx['self'] and any(isinstance(n, ast.Name) and n.id == ctx['self'] and isinstance(n.ctx, ast.Store)
                                for n in ast.walk(fn)):
             ctx['self'] = None
-        fn.body = self.proc_block(fn.body, ctx, MAX_DEPTH)
+        if maybe_call:
+            fn.body = self.proc_block(fn.body, ctx, MAX_DEPTH)
         ch = bool(ctx['used'])
-        ch |= self.literal_zip(fn)
-        ch |= self.dictcomp_loops(fn)
-        ch |= self.unroll(fn)
-        ch |= self.attr_forms(fn)
-        ch |= self.append_loops(fn)
-        ch |= self.ifexp_statements(fn)
+        if ch:
+            want = {k: True for k in want}      # inlined bodies may bring any of the shapes
+        if want['zip']:
+            ch |= self.literal_zip(fn)
+        if want['dictcomp']:
+            ch |= self.dictcomp_loops(fn)
+        if want['unroll']:
+            ch |= self.unroll(fn)
+        if want['attr']:
+            ch |= self.attr_forms(fn)
+        if want['append']:
+            ch |= self.append_loops(fn)
+        if want['ifexp']:
+            ch |= self.ifexp_statements(fn)
         if not ch:
             return node
         ast.fix_missing_locations(fn)
